@@ -16,6 +16,33 @@ ALL = [f"C{i:02d}" for i in range(1, 36)]
 
 # id -> (category, technique, text, note, design_ref)
 CHECKS: dict[str, tuple[str, str, str, str, str]] = {
+    "C02": (
+        "exploration",
+        "bounded-exhaustive program x input enumeration, differential against sys.monitoring LINE events",
+        "Every progen program up to size 3 (4849) plus 52 one-construct seeds is loaded through the real import "
+        "hook and every menu input is executed by the real TestCaseExecutor under LINE, BRANCH+LINE and "
+        "BRANCH+LINE+CHECKED. For every execution, reported covered lines must equal the LINE events of the "
+        "uninstrumented code restricted to existing_lines; executed lines must be coverable; registered lines must "
+        "be real lines of the SUT file; compute_line_coverage must equal the executed/existing ratio. Quick runs "
+        "size 3 under LINE only; thorough runs everything under all sets.",
+        "Reference = CPython 3.12 LINE events, cross-validated on every call against sys.settrace opcode tracing "
+        "(disagreement = harness error). Modules the hook cannot load / CHECKED on inlined comprehensions are "
+        "counted and left to C01. No exclusions configured (C08).",
+        "5/C02",
+    ),
+    "C03": (
+        "exploration",
+        "bounded-exhaustive program x input enumeration, differential against sys.monitoring BRANCH events",
+        "Same program and input space, under BRANCH and BRANCH+LINE. Every reachable conditional jump or FOR_ITER "
+        "must be a predicate (matched by rank, opcode and line); both outcomes of every predicate and every "
+        "branch-less code object must be goals in the real BranchGoalPool; BranchGoal.is_covered and "
+        "BranchlessCodeObjectGoal.is_covered must agree with the outcomes the interpreter took; the CFG true edge "
+        "must be the direction taken when the tested condition holds.",
+        "Outcome of a BRANCH event is read off the jump opcode independently of get_branch_type (true = tested "
+        "condition holds; FOR_ITER true = body entered). Unreachable jumps exempt. Only distance == 0 is used "
+        "(distances are C04).",
+        "5/C03",
+    ),
     "C04": (
         "exploration",
         "bounded-exhaustive value-pair enumeration against CPython's own operators (differential)",
@@ -85,6 +112,34 @@ CHECKS: dict[str, tuple[str, str, str, str, str]] = {
         "or ordered-set iteration order). Alphabet assumptions as for C10.",
         "5/C11",
     ),
+    "C12": (
+        "model_checking",
+        "explicit-state BFS over operation histories on real chromosome/cache objects + deviation-bounded RNG enumeration for mutate()",
+        "On real TestCaseChromosome / TestSuiteChromosome / ComputationCache objects with a real TestFactory, every "
+        "history of up to 3 (quick) / 4 (thorough) operations over a 17-operation test-case alphabet and up to 2 / 3 "
+        "over a 21-operation suite alphabet is explored on the subject and its clone from ~33 roots per module; "
+        "mutate() ranges over all RNG answer sequences with <= 2 non-default answers. In every reached state every "
+        "fitness / covered / coverage query (forward and reverse order, after late registration) must equal the "
+        "value recomputed from scratch on a fresh chromosome, and no operation may raise.",
+        "The stub executor is a pure function of the rendered test code; counting stub fitness functions; direct "
+        "edits are assumed to be followed by changed=True as at every pynguin call site.",
+        "5/C12",
+    ),
+    "C13": (
+        "model_checking",
+        "explicit-state BFS on the real archives + deviation-bounded exploration of real DynaMOSA/MOSA/MIO searches with re-execution",
+        "The real CoverageArchive is explored over its whole reachable state space for 2 goals (thorough: 3); "
+        "MIOPopulation / MIOArchive to depth 4 / 3, over all scripted solutions (h in {0,.5,1} per goal, size 1-3, "
+        "clean / exception / timeout), single and pair updates, add_goals, shrink and get/sample with every RNG "
+        "answer enumerated. On every transition: covered set monotone, every archived test covers its goal, "
+        "replacement only by a covering test that is error-free where the old one was not or strictly shorter, MIO "
+        "capacity respected, one h=1 solution per covered target. The same oracle runs on every archive operation of "
+        "real DYNAMOSA/MOSA/MIO searches on two corpus modules within <= 1 explorer-chosen RNG answer of fixed base "
+        "answer sequences, and every archived test is re-executed after every iteration.",
+        "Synthetic verdicts are scripted and mutually consistent (real agreement is C10); MIO machines are "
+        "depth-bounded; replacement by a clone of the identical test is not counted.",
+        "5/C13",
+    ),
     "C14": (
         "exploration",
         "bounded-exhaustive populations and selection grids against brute-force Pareto oracles",
@@ -99,6 +154,50 @@ CHECKS: dict[str, tuple[str, str, str, str, str]] = {
         "Trusted: a 10-line Pareto oracle and the monkeypatched next_bool/next_float seam (any other draw raises).",
         "5/C14",
     ),
+    "C16": (
+        "exploration",
+        "exhaustive finite grid of real runs compared pairwise (exported bytes + RNG draw log)",
+        "Grid: corpus module x seed x algorithm x assertion mode x PYTHONHASHSEED; every cell is a real in-process "
+        "run_pynguin() in a fresh interpreter with an iteration budget; every hash-seed variant (and a repeated "
+        "identical cell) is compared with the PYTHONHASHSEED=0 run: byte-identical exported file and identical RNG "
+        "leaf-draw log (a divergence is localised to its first differing draw).",
+        "Hash randomisation cannot be intercepted or enumerated: independence from it can be refuted, not "
+        "established, by a finite grid of hash seeds. Wall-clock budgets (test timeouts, local-search time, the "
+        "exporter's 5 s watchdog) are set so that they never bind.",
+        "5/C16",
+    ),
+    "C17": (
+        "exploration",
+        "exhaustive budget grid of real runs with independent iteration/execution counting",
+        "One real run per (algorithm in 6, stopping condition in {iterations, test executions, statement "
+        "executions}, budget value, module) cell. Iteration boundaries are observed by wrapping "
+        "before_first_search_iteration / after_search_iteration; executions and statements are counted by wrapping "
+        "TestCaseExecutor.execute, independently of pynguin's stopping conditions. Per cell: the run returns; "
+        "completed iterations <= iteration budget; once the independent count or pynguin's own is_fulfilled() has "
+        "reached the budget at an iteration boundary no further iteration completes.",
+        "Iteration boundaries are the two observer call sites; wall-clock budgets are set so that they never bind.",
+        "5/C17",
+    ),
+    "C18": (
+        "exploration",
+        "E2 test-case population through the real pipeline, exported files run by a real pytest process",
+        "Every test case the real factory builds with <= d RNG deviations per corpus module -> suites of 1-3 -> "
+        "real assertion generation (NONE/SIMPLE/MUTATION_ANALYSIS) -> real _minimize -> real _export_chromosome "
+        "(seed fixture on/off, no_xfail on/off); all files of a shard are run by one real pytest subprocess against "
+        "the uninstrumented module: no collection error, every test passes, xfail(strict) tests are xfailed.",
+        "Population bound and suite shapes are stated in the evidence; pytest runs with --import-mode=importlib.",
+        "5/C18",
+    ),
+    "C19": (
+        "model_checking",
+        "stage-by-stage differential on the real generate/minimise/export pipeline over an enumerated population",
+        "For suites (singletons + pairs) of the enumerated population per module, the real _generate_assertions "
+        "(SIMPLE / MUTATION_ANALYSIS), _minimize (NONE/CASE/SUITE/COMBINED x direction) and _export_chromosome are "
+        "applied; on every stage transition every (statement, assertion) pair of a surviving test case must still "
+        "be attached to the same statement, and in the written file every assertion must follow its statement.",
+        "Whole test cases removed by suite minimisation may take their assertions with them (lenient reading).",
+        "5/C19",
+    ),
     "C20": (
         "exploration",
         "bounded-exhaustive value enumeration through the real trace observer, renderer and writer",
@@ -112,6 +211,16 @@ CHECKS: dict[str, tuple[str, str, str, str, str]] = {
         "{var_0: obj} as locals. Values outside the stated space are not covered.",
         "5/C20",
     ),
+    "C22": (
+        "model_checking",
+        "real _minimize on enumerated suites with from-scratch coverage recomputation",
+        "Suites (singletons, pairs, triples) of the enumerated population per module go through the real _minimize "
+        "under CASE/SUITE/COMBINED x FORWARD/BACKWARD, with and without generated assertions; coverage is "
+        "recomputed from scratch (fresh chromosomes and coverage functions): identical branch and line coverage, "
+        "no statement that was not in the original, asserted statements keep their binding, no exception.",
+        "A whole test case removed by SUITE minimisation may take its asserted statements with it.",
+        "5/C22",
+    ),
     "C23": (
         "exploration",
         "value enumeration for render/parse round trips + deviation-bounded choice-tree exploration of generate/mutate",
@@ -124,6 +233,16 @@ CHECKS: dict[str, tuple[str, str, str, str, str]] = {
         "RNG menus of mc/rng.py plus an adversarial character menu; int accepted for float/complex; mutation starts "
         "are generated expressions plus 80 parsed literals.",
         "5/C23",
+    ),
+    "C24": (
+        "model_checking",
+        "export -> parse_seed_module -> re-export round trip on every enumerated suite",
+        "Suites of the enumerated population per module are exported by the real writer (with SIMPLE assertions and "
+        "without), parsed back by the real parse_seed_module (create_assertions on/off) and exported again; every "
+        "exported test function must yield a parsed test case whose re-exported body equals the original.",
+        "Bodies are compared after whitespace normalisation; `Name` and `<alias>.Name` count as the same reference; "
+        "with assertions off, bindings that became unused may be dropped.",
+        "5/C24",
     ),
     "C25": (
         "exploration",
@@ -195,6 +314,16 @@ CHECKS: dict[str, tuple[str, str, str, str, str]] = {
         "assumptions (threads switch only at the wrapped scheduling points).",
         "5/C30",
     ),
+    "C31": (
+        "model_checking",
+        "differential execution of the enumerated population: real in-process vs real subprocess executor",
+        "Every enumerated test case (raising ones included; with and without SIMPLE assertions attached) per module "
+        "is executed by the real TestCaseExecutor and by the real SubprocessTestCaseExecutor (single and batched) "
+        "with the assertion trace and verification observers: same timeout flag, exception types by position, "
+        "covered lines, branch outcomes, code objects, assertion trace and verification trace.",
+        "Corpus modules are deterministic; timeouts are set so that they never bind.",
+        "5/C31",
+    ),
     "C32": (
         "model_checking",
         "stateless schedule exploration (bounded deviations) of the real executor under a cooperative scheduler",
@@ -223,6 +352,22 @@ CHECKS: dict[str, tuple[str, str, str, str, str]] = {
         "that hangs without dying is outside the model. Trusted: TLC, the dump parser, the fakes.",
         "5/C33",
     ),
+    "C28": (
+        "fault_enumeration",
+        "bounded-exhaustive modules x mutator configurations against a differential AST oracle, abandonment at every generator step",
+        "For every generated module up to the statement bound (quick 850, thorough ~14.6k; the 37-statement menu "
+        "fires all 30 mutation operators) and 29 stdlib modules, and for every mutator configuration (plain, "
+        "reorder, every cap with scripted sampling answers, 4 HOM strategies x order 1/2, via MutationController): at "
+        "every generator step the shared original AST differs from its pristine dump only inside the reported "
+        "Mutation nodes and is pristine after exhaustion; each mutant differs from the original; capped / reordered "
+        "/ order-1 enumerations are sub-multisets of the full one and respect the cap; the reported count equals "
+        "the uncapped enumeration length; and the generator is abandoned at EVERY prefix length k by close, drop "
+        "and break, after which the AST must be pristine.",
+        "Assumes CPython ref-count finalisation of dropped generators; scripted RNG menus (4 sampling, 3 shuffle "
+        "answers); stdlib mutants are compiled, not executed; 'equals original' is decided without position "
+        "attributes; python -O is out of scope.",
+        "5/C28",
+    ),
     "C29": (
         "model_checking",
         "explicit-state BFS over the real FilesystemIsolation on a fresh sandbox tree per history",
@@ -246,6 +391,17 @@ CHECKS: dict[str, tuple[str, str, str, str, str]] = {
         "Elements are small ints; set arguments of plain `set` type iterate in CPython's order for "
         "small ints. Hash-colliding or __eq__-overriding elements are not explored.",
         "5/C34",
+    ),
+    "C35": (
+        "exploration",
+        "all subsets of a trace-distinct test pool through the real get_coverage_report",
+        "For each corpus module a pool of trace-distinct test cases is executed once; every subset of the pool is "
+        "fed to the real get_coverage_report with BRANCH+LINE, BRANCH only and LINE only: totals equal "
+        "fitness_metrics on the merged trace and the real suite coverage functions, per-line annotations sum to the "
+        "totals, a line is annotated covered exactly when the suite covers it, per-line branch counts match the "
+        "predicate outcomes, the HTML and XML renderers run and the XML rates equal the report's numbers.",
+        "Pool size bounds the subset lattice (2^k suites); suites share execution results as in the real pipeline.",
+        "5/C35",
     ),
 }
 
